@@ -1,5 +1,5 @@
 """C05  Input length mismatches are reported as depleted / superfluous, never absorbed (crash-point enumeration)."""
-from .. import cases, faultspace
+from .. import bscope, cases, faultspace
 
 LEVEL = "fault_enumeration"
 OWN = {"escape", "outcome", "details", "events", "pulled"}
@@ -9,14 +9,21 @@ ASSUMPTIONS = [
 ]
 
 
+B_STRICT = ('outcome', 'details', 'events')
+B_WARN = ()
+
+
 def units(tier, seed):
     us = cases.fault_units(tier, seed, with_prims=True)
     for u in us:
         u["seed"], u["tier"] = seed, tier
+    us += bscope.units(tier, seed)
     return us
 
 
 def run_unit(unit):
+    if unit["kind"] == "bscope":
+        return bscope.run_b_unit(unit, strict_own=B_STRICT, warn_props=B_WARN)
     return faultspace.run_unit(unit, ["length"], OWN)
 
 
@@ -29,4 +36,6 @@ def finish(acc, tier, seed):
 
 
 def replay(case):
+    if case.get("harness") == "bytestep":
+        return bscope.replay(case, strict_own=B_STRICT, warn_props=B_WARN)
     return faultspace.replay(case, OWN)
